@@ -34,6 +34,7 @@ def instances(tier):
                         for ap in aps:
                             out.append(Instance("%s.%s.%s%s.w%s.a%s" % (fn, wt, al, ".min" if minw else "", wp, ap), "h_padfill",
                                                 {"fn": fn, "wtype": wt, "align": al, "minw": minw, "wpct": wp, "apct": ap}, timeout=60))
+    out += _col_instances(tier) + _pile_instances(tier) + _grid_instances(tier)
     return out
 
 
@@ -78,3 +79,196 @@ def h_padfill(I, fn, wtype, align, minw, wpct, apct):
     # the spare space is split by the alignment percentage to within rounding
     spare = maxc - req - m0 - m1
     I.check("spare_split", Implies(fits, sabs(100 * (lo - m0) - pct * spare) <= 50))
+
+
+# ------------------------------------------------------------------------------------------------------------
+# Columns.column_widths / Pile.get_item_rows
+
+WEIGHTS = [1, 2, 3, 7]
+
+
+def _col_instances(tier):
+    import itertools
+
+    out = []
+    maxn = 3 if tier == "quick" else 4
+    for n in range(1, maxn + 1):
+        for kinds in itertools.product("gpw", repeat=n):
+            nw = kinds.count("w")
+            if tier == "quick":
+                wsets = [tuple(WEIGHTS[(i * 2 + 1) % 4] for i in range(nw))] if nw else [()]
+                if nw >= 2:
+                    wsets.append(tuple(1 for _ in range(nw)))
+            else:
+                wsets = list(itertools.product(WEIGHTS if n < 4 else [1, 3], repeat=nw))
+            for ws in wsets:
+                for focus in range(n):
+                    out.append(Instance("columns.%s.w%s.f%d" % ("".join(kinds), "-".join(map(str, ws)) or "x", focus), "h_columns",
+                                        {"kinds": "".join(kinds), "weights": list(ws), "focus": focus}, timeout=120))
+    return out
+
+
+def h_columns(I, kinds, weights, focus):
+    """Columns.column_widths on unbounded maxcol / given widths / packed widths / dividechars / min_width."""
+    import urwid
+    from symx import uw
+
+    uw.stub_cache(I)
+    n = len(kinds)
+    maxcol = I.int("maxcol", 1)
+    dc = I.int("dividechars", 0)
+    minw = I.int("min_width", 1)
+    ws = list(weights)
+    spec, own, wts = [], [], []
+    for i, k in enumerate(kinds):
+        if k == "g":
+            g = I.int("given%d" % i, 1)
+            spec.append((g, uw.ABox(I, "c%d" % i)))
+            own.append(g)
+            wts.append(None)
+        elif k == "p":
+            ch = uw.AFixed(I, "c%d" % i)
+            spec.append(("pack", ch))
+            own.append(ch.pw)
+            wts.append(None)
+        else:
+            wt = ws.pop(0)
+            spec.append(("weight", wt, uw.ABox(I, "c%d" % i)))
+            own.append(minw)
+            wts.append(wt)
+    cols = urwid.Columns(spec, dividechars=dc, focus_column=focus, min_width=minw)
+    widths = cols.column_widths((maxcol,), False)
+    I.note("widths", widths)
+    I.check("len_le_n", len(widths) <= n)
+    widths = list(widths) + [0] * (n - len(widths))
+    I.check("nonneg", And(*[w >= 0 for w in widths]))
+    for i, k in enumerate(kinds):
+        if k in "gp":
+            I.check("own_or_nothing_%d" % i, Or(widths[i] == own[i], widths[i] == 0))
+    I.check("focus_visible_if_fits", Implies(own[focus] <= maxcol, widths[focus] > 0))
+    vis = [Ite(w > 0, 1, 0) for w in widths]
+    nvis = ssum(vis)
+    total = ssum(widths) + dc * smax(nvis - 1, 0)
+    I.check("total_le_maxcol", total <= maxcol)
+    wshown = [Ite(widths[i] > 0, 1, 0) for i in range(n) if kinds[i] == "w"]
+    if wshown:
+        any_w = ssum(wshown) > 0
+        I.check("exact_fill_when_weighted_shown", Implies(any_w, total == maxcol))
+        # proportional to within one column unless min_width intervenes
+        idx = [i for i in range(n) if kinds[i] == "w"]
+        allshown = And(*[widths[i] > 0 for i in idx])
+        noclamp = And(*[widths[i] > minw for i in idx])
+        S = ssum([widths[i] for i in idx])
+        WT = sum(wts[i] for i in idx)
+        for i in idx:
+            I.check("proportional_%d" % i, Implies(And(allshown, noclamp), sabs(widths[i] * WT - S * wts[i]) <= WT))
+
+
+def _pile_instances(tier):
+    import itertools
+
+    out = []
+    maxn = 3 if tier == "quick" else 4
+    for n in range(1, maxn + 1):
+        for kinds in itertools.product("gpw", repeat=n):
+            nw = kinds.count("w")
+            if nw == 0:
+                continue  # a box Pile without weighted items is rejected with PileError (documented)
+            if tier == "quick":
+                wsets = [tuple(WEIGHTS[(i * 2 + 1) % 4] for i in range(nw))]
+                if nw >= 2:
+                    wsets.append(tuple(1 for _ in range(nw)))
+            else:
+                wsets = list(itertools.product(WEIGHTS if n < 4 else [1, 3], repeat=nw))
+            for ws in wsets:
+                out.append(Instance("pile.%s.w%s" % ("".join(kinds), "-".join(map(str, ws))), "h_pile", {"kinds": "".join(kinds), "weights": list(ws)}, timeout=120))
+    return out
+
+
+def h_pile(I, kinds, weights):
+    """Pile.get_item_rows in box mode on unbounded maxrow / given heights / child rows."""
+    import urwid
+    from symx import uw
+
+    uw.stub_cache(I)
+    n = len(kinds)
+    maxcol = I.int("maxcol", 1)
+    maxrow = I.int("maxrow", 1)
+    ws = list(weights)
+    spec, own, wts = [], [], []
+    for i, k in enumerate(kinds):
+        if k == "g":
+            g = I.int("given%d" % i, 1)
+            spec.append(("given", g, uw.ABox(I, "c%d" % i)))
+            own.append(g)
+            wts.append(None)
+        elif k == "p":
+            ch = uw.AFlow(I, "c%d" % i)
+            spec.append(("pack", ch))
+            own.append(ch._r(maxcol, False))
+            wts.append(None)
+        else:
+            wt = ws.pop(0)
+            spec.append(("weight", wt, uw.ABox(I, "c%d" % i)))
+            own.append(None)
+            wts.append(wt)
+    pile = urwid.Pile(spec)
+    rows = pile.get_item_rows((maxcol, maxrow), False)
+    I.note("rows", rows)
+    I.check("len", len(rows) == n)
+    I.check("nonneg", And(*[r >= 0 for r in rows]))
+    static = 0
+    for i, k in enumerate(kinds):
+        if k in "gp":
+            I.check("own_%d" % i, rows[i] == own[i])
+            static = static + own[i]
+    idx = [i for i in range(n) if kinds[i] == "w"]
+    S = ssum([rows[i] for i in idx])
+    I.check("exact_fill", Implies(static <= maxrow, ssum(rows) == maxrow))
+    I.check("weighted_get_remaining", S == smax(maxrow - static, 0))
+    WT = sum(wts[i] for i in idx)
+    for i in idx:
+        I.check("proportional_%d" % i, sabs(rows[i] * WT - S * wts[i]) <= WT)
+
+
+def _grid_instances(tier):
+    out = []
+    for n in range(1, (4 if tier == "quick" else 6) + 1):
+        for vsep in (0, 1, 2):
+            out.append(Instance("grid.n%d.v%d" % (n, vsep), "h_grid", {"n": n, "vsep": vsep}, timeout=120))
+    return out
+
+
+def h_grid(I, n, vsep):
+    """GridFlow.generate_display_widget: cell width, reading order, row breaks."""
+    import urwid
+    from symx import uw
+
+    uw.stub_cache(I)
+    maxcol = I.int("maxcol", 1)
+    cw = I.int("cell_width", 1)
+    hsep = I.int("h_sep", 0)
+    cells = [uw.AFlow(I, "c%d" % i, selectable=(i % 2 == 1)) for i in range(n)]
+    g = urwid.GridFlow(cells, cw, hsep, vsep, "left")
+    w = g.generate_display_widget((maxcol,))
+    rows = []
+    for child, _opt in w.contents:
+        if isinstance(child, urwid.Padding):
+            rows.append(child.original_widget)
+    flat = []
+    cwm = smin(cw, maxcol)
+    for c in rows:
+        for cell, (t, amount, _b) in c.contents:
+            flat.append(cell)
+            I.check("cell_width", And(t == urwid.GIVEN, amount == cwm))
+        I.check("h_sep", c.dividechars == hsep)
+    I.check("reading_order", len(flat) == n and all(a is b for a, b in zip(flat, cells)))
+    for r, c in enumerate(rows):
+        k = len(c.contents)
+        I.check("row_nonempty", k >= 1)
+        if k >= 2:
+            I.check("row_fits", k * cw + (k - 1) * hsep <= maxcol)
+        if r < len(rows) - 1:
+            I.check("break_only_when_next_does_not_fit", (k + 1) * cwm + k * hsep > maxcol if True else True)
+    nd = sum(1 for child, _ in w.contents if isinstance(child, urwid.Divider))
+    I.check("dividers", nd == (len(rows) - 1 if vsep else 0))
